@@ -523,6 +523,8 @@ fn tok_strategy() -> BoxedStrategy<PrimTok> {
                         2 => f32::NEG_INFINITY.to_bits() as u128,
                         3 => 1,
                         4 => 0,
+                        5 => ((1u32 << 31) | (raw as u32 & 0x7f_ffff)) as u128, // negative subnormal
+                        6 => (raw as u32 & 0x7f_ffff) as u128,                 // positive subnormal
                         _ => (raw as u32) as u128,
                     }
                 } else {
@@ -532,6 +534,8 @@ fn tok_strategy() -> BoxedStrategy<PrimTok> {
                         2 => f64::NEG_INFINITY.to_bits() as u128,
                         3 => 1,
                         4 => 0,
+                        5 => ((1u64 << 63) | (raw as u64 & 0xf_ffff_ffff_ffff)) as u128, // negative subnormal
+                        6 => (raw as u64 & 0xf_ffff_ffff_ffff) as u128,                 // positive subnormal
                         _ => (raw as u64) as u128,
                     }
                 };
